@@ -316,7 +316,10 @@ class Theory:
         
         """
         if seq.rule == "":
-            # Empty line in the proof
+            # Empty line in the proof. Nothing justifies it, so it cannot
+            # carry a statement (which later lines could otherwise cite).
+            if seq.th is not None:
+                raise CheckProofException("empty line %s cannot carry a statement" % seq.id)
             return None
 
         if seq.rule == "sorry":
